@@ -14,5 +14,5 @@ Separate Extraction
   EngineSM.tt_model EngineSM.generate EngineSM.second_filter
   RefExpand.render RefExpand.ref17 RefExpand.ref_lines EngineDomain.in_grammar17 EngineDomain.wf_assign17 EngineDomain.item_ok EngineDomain.item_wf
   RefExpand16.render16 EngineDomain16.ref16_rows EngineDomain16.wf16_rows EngineDomain16.in_grammar16 Parse16.names_ok_shipped
-  PyRender.py_proc_ref PyRender.py_proc_reads PyRender.py_proc_ok PyRender.py_proc_lines
+  PyRender.py_proc_ref PyRender.py_proc_reads PyRender.py_proc_ok PyRender.py_proc_lines PyRender.py_init_ref
   CsRender.cs_block_ref CsRender.cs_block_ok CsRender.cs_block_lines.
